@@ -30,6 +30,14 @@ func c08Gen(seed uint64, run int, tier string) *Case {
 		c.Cfg["sameseg"] = int64(r.Intn(2))
 		return c
 	}
+	if run%10 == 4 {
+		// the implementation is slow inside FidDestroy, the callback of a clunk
+		c.Stratum = "fid-destroy-blocked"
+		c.Cfg["destroyblock"] = 1
+		c.Cfg["nconn"] = 2
+		c.Cfg["sameseg"] = int64(r.Intn(2))
+		return c
+	}
 	c.Stratum = "distinct-tags"
 	groups := run%2 == 1
 	if groups {
@@ -201,7 +209,99 @@ func c08Auth(x *Ctx) {
 	}
 }
 
+// c08Destroy: a Tclunk whose FidDestroy callback is parked inside the implementation; requests with other tags --
+// on other fids of the connection and on another connection -- must all be answered.
+func c08Destroy(x *Ctx) {
+	c := x.C
+	ms := uint32(1024)
+	fs := NewScriptFS(x)
+	fs.PlanFor = func(inv *Inv) *Plan { return &Plan{NWqid: -1, NData: -1, QType: qDir} }
+	armed, first := false, true
+	fs.DestroyHold = func(inv *Inv) bool {
+		if armed && first && inv.Conn == 0 {
+			first = false
+			return true
+		}
+		return false
+	}
+	sys := NewSrvSys(x, fs.OpsValue(false, false), fs, ms, true, int(c.cfg("maxpend")), int(c.cfg("debug")))
+	for i := 0; i < 2; i++ {
+		sys.AddConn(0, int(c.cfg("seg")))
+	}
+	var parked *Sent
+	var others []*Sent
+	setup := false
+	rt.Go(rt.SiteSpawn, func() {
+		rt.SetName("client")
+		for ci := 0; ci < 2; ci++ {
+			p := sys.Conns[ci].Peer
+			if r := p.Call(&Msg{Type: Tversion, Tag: NOTAG, Msize: ms, Version: "9P2000.u"}); r == nil || r.M == nil || r.M.Type != Rversion {
+				return
+			}
+			for _, m := range []*Msg{{Type: Tattach, Tag: 2, Fid: 0, Afid: NOFID, Uname: "u0", Nuname: 0},
+				{Type: Twalk, Tag: 3, Fid: 0, Newfid: 1, Wname: []string{"a"}}, {Type: Twalk, Tag: 4, Fid: 0, Newfid: 2, Wname: nil}} {
+				if r := p.Call(m); r == nil || r.M == nil || r.M.Type == Rerror {
+					x.Violate("setup", "%s answered %v", m, r)
+					return
+				}
+			}
+		}
+		setup = true
+		p0, p1 := sys.Conns[0].Peer, sys.Conns[1].Peer
+		armed = true
+		parked = p0.Write(&Msg{Type: Tclunk, Tag: 10, Fid: 1})[0]
+		rt.YieldUntil(rt.SiteActor, func() bool { return len(fs.HeldInvs()) > 0 || p0.EOF })
+		ms0 := []*Msg{
+			{Type: Tstat, Tag: 11, Fid: 0},
+			{Type: Twalk, Tag: 12, Fid: 0, Newfid: 3, Wname: []string{"b"}},
+			{Type: Tclunk, Tag: 13, Fid: 2},
+			{Type: Tstat, Tag: 14, Fid: 3},
+			{Type: Tattach, Tag: 15, Fid: 5, Afid: NOFID, Uname: "u1", Nuname: 1},
+		}
+		if c.cfg("sameseg") != 0 {
+			others = append(others, p0.Write(ms0...)...)
+		} else {
+			for _, m := range ms0 {
+				others = append(others, p0.Write(m)[0])
+			}
+		}
+		others = append(others, p1.Write(&Msg{Type: Tstat, Tag: 20, Fid: 0}, &Msg{Type: Tclunk, Tag: 21, Fid: 1})...)
+	})
+	if !x.Run() {
+		return
+	}
+	if !setup {
+		if len(x.Res.Viol) == 0 {
+			x.Violate("setup", "the set-up did not complete")
+		}
+		return
+	}
+	if len(fs.HeldInvs()) == 1 {
+		x.Probe("quiescence-with-requests-parked")
+		for _, s := range others {
+			if s.Reply == nil {
+				x.Violate("h1-delayed", "%s has no reply at quiescence while only the FidDestroy callback of %s (another tag) is parked inside the implementation", s.M, parked.M)
+			}
+		}
+	} else {
+		x.Violate("h1-delayed", "the clunk whose FidDestroy was to be parked never got there")
+	}
+	for _, h := range fs.HeldInvs() {
+		h.Released = true
+	}
+	if !x.Run() {
+		return
+	}
+	if parked != nil && parked.Reply == nil {
+		x.Violate("h1-delayed", "%s has no reply although its FidDestroy callback returned", parked.M)
+	}
+}
+
 func c08Exec(x *Ctx) {
+	if x.C.cfg("destroyblock") != 0 {
+		c08Destroy(x)
+		return
+	}
 	if x.C.cfg("authblock") != 0 {
 		c08Auth(x)
 		return
